@@ -128,12 +128,14 @@ class IOBase(Communicator):
     _conn = None
     _last_error = None
     _lock = None
+    _attempt_lock = None
     _last_connect_attempt = 0
 
     def earlyInit(self):
         super().earlyInit()
         self._reconnectCallbacks = {}
         self._lock = threading.RLock()
+        self._attempt_lock = threading.Lock()
 
     def connectStart(self):
         if not self.is_connected:
@@ -200,11 +202,13 @@ class IOBase(Communicator):
                 # for the identification and in reconnect callbacks: both would wait for ever
                 raise SilentError('disconnected') from None
             now = time.time()
-            if now >= self._last_connect_attempt + self.pollinterval:
-                # we do not try to reconnect more often than pollinterval
-                self._last_connect_attempt = now
-                if self.read_is_connected():
-                    return
+            with self._attempt_lock:  # of several callers arriving at the same time, only one may try
+                due = now >= self._last_connect_attempt + self.pollinterval
+                if due:
+                    # we do not try to reconnect more often than pollinterval
+                    self._last_connect_attempt = now
+            if due and self.read_is_connected():
+                return
             raise SilentError('disconnected') from None
 
     def registerReconnectCallback(self, name, func):
